@@ -275,6 +275,10 @@ func c12RoundTrip(r *vf.Run, t *testing.T, id string, rng *rand.Rand) {
 			}
 			rt.Wait()
 		}
+		// the silent hosts of redial-black-hole disconnect now: Client.Close would otherwise wait behind a dial that never
+		// ends (the verdict of that family is taken from the RoundTrips above, not from this clean-up)
+		env.ReleaseHung()
+		rt.Wait()
 		env.Close()
 		for _, c := range env.Conns() {
 			c.P.Unpark()
